@@ -40,6 +40,11 @@ var xUnits = []xUnit{
 	// selector.BuildStaticWeightList up to the scaling range: static-weight check, min / max weight, guard, clamp
 	{Name: "tr_BSWL_range", Dir: "tars/selector", Func: "BuildStaticWeightList", From: "var maxRange, totalWeight int", To: "if minWeight > 0 {",
 		Outs: []string{"maxRange", "totalWeight", "minWeight", "maxWeight"}},
+	// AdapterProxy.checkActive: the failover thresholds; the clock, the outcome of ReConnect and the float32 failure
+	// ratio comparison are oracles
+	{Name: "tr_checkActive", Dir: "tars", Func: "AdapterProxy.checkActive", Recv: true,
+		Oracles: map[string]xOracle{"time.Now().Unix()": {"now_", "Z"}, "c.tarsClient.ReConnect()": {"reconnect_err", "bool"},
+			"(float32(c.failCount) / float32(c.sendCount)) >= failRatio": {"ratio_ge", "bool"}}},
 	// the end of endpoint.Parse: from the flag variables to the Endpoint value (without its cache key)
 	{Name: "tr_Parse_build", Dir: "tars/util/endpoint", Func: "Parse", From: "isTcp := int32(0)", To: "e := Endpoint{",
 		Outs: []string{"e"}, After: []string{"e.Key = e.String()", "return e"}},
@@ -75,7 +80,7 @@ func newXLoader(root string) *xLoader {
 }
 
 func (l *xLoader) Import(path string) (*types.Package, error) {
-	if path == "encoding/binary" || path == "math" || path == "bytes" {
+	if path == "encoding/binary" || path == "math" || path == "bytes" || path == "time" {
 		return l.std.Import(path)
 	}
 	if l.mod != "" && strings.HasPrefix(path, l.mod+"/") {
@@ -158,7 +163,7 @@ func xlateUnit(root string, u *xUnit, ld *xLoader, records map[string]*types.Nam
 	if fd == nil {
 		panic(xErr{token.Position{Filename: filepath.Join(root, u.Dir)}, "function " + u.Func + " not found"})
 	}
-	x := &xl{fset: p.fset, info: p.info, pkg: p.pkg, unit: u, names: map[types.Object]string{}, used: map[string]bool{}, records: records, recOrd: recOrd, consts: consts, constOrd: constOrd}
+	x := &xl{oracleAt: map[string]ast.Node{}, fset: p.fset, info: p.info, pkg: p.pkg, unit: u, names: map[types.Object]string{}, used: map[string]bool{}, records: records, recOrd: recOrd, consts: consts, constOrd: constOrd}
 	if fd.Type.TypeParams != nil {
 		x.fail(fd, "generic functions are outside the subset")
 	}
@@ -174,10 +179,11 @@ func xlateUnit(root string, u *xUnit, ld *xLoader, records map[string]*types.Nam
 	var rts []string
 	if fd.Type.Results != nil {
 		for _, f := range fd.Type.Results.List {
-			if len(f.Names) > 0 {
-				x.fail(f, "named results are outside the subset")
+			// named results are accepted as long as the body never mentions them (they are not declared here, and a
+			// return without values is rejected)
+			for i := 0; i < len(f.Names) || i < 1; i++ {
+				rts = append(rts, x.coqType(f.Type, x.typeOf(f.Type)))
 			}
-			rts = append(rts, x.coqType(f.Type, x.typeOf(f.Type)))
 		}
 	}
 	x.nres = len(rts)
@@ -200,8 +206,8 @@ func xlateUnit(root string, u *xUnit, ld *xLoader, records map[string]*types.Nam
 	body := fd.Body.List
 	var stateT, final string
 	if u.From == "" { // whole function
-		if fd.Recv != nil && u.Writer == nil {
-			x.fail(fd, "methods are translated in writer mode only")
+		if fd.Recv != nil && u.Writer == nil && !u.Recv {
+			x.fail(fd, "methods are translated in writer mode or receiver-fields mode only")
 		}
 		for _, f := range fd.Type.Params.List {
 			for _, id := range f.Names {
@@ -211,6 +217,60 @@ func xlateUnit(root string, u *xUnit, ld *xLoader, records map[string]*types.Nam
 				obj := x.info.ObjectOf(id)
 				params = append(params, "("+x.declare(obj)+" : "+x.coqType(id, obj.Type())+")")
 			}
+		}
+		if u.Recv { // the receiver's fields read / assigned by the body (outside oracle expressions)
+			if fd.Recv == nil || len(fd.Recv.List[0].Names) != 1 {
+				x.fail(fd, "receiver-fields mode needs a named receiver")
+			}
+			x.recv = x.info.ObjectOf(fd.Recv.List[0].Names[0])
+			read, written := map[*types.Var]bool{}, map[*types.Var]bool{}
+			ast.Inspect(fd.Body, func(n ast.Node) bool {
+				if e, ok := n.(ast.Expr); ok {
+					if _, isOracle := u.Oracles[x.src(e)]; isOracle {
+						return false
+					}
+					if f := x.field(e); f != nil {
+						read[f] = true
+					}
+				}
+				switch n := n.(type) {
+				case *ast.AssignStmt:
+					for _, l := range n.Lhs {
+						if f := x.field(l); f != nil {
+							written[f] = true
+						}
+					}
+				case *ast.IncDecStmt:
+					if f := x.field(n.X); f != nil {
+						written[f] = true
+					}
+				}
+				return true
+			})
+			var fs []*types.Var
+			for f := range read {
+				fs = append(fs, f)
+			}
+			sort.Slice(fs, func(i, j int) bool { return fs[i].Pos() < fs[j].Pos() })
+			for _, f := range fs {
+				params = append(params, "("+x.declare(f)+" : "+x.coqType(fd, f.Type())+")")
+				if written[f] {
+					x.recvOut = append(x.recvOut, f)
+					rts = append(rts, x.coqType(fd, f.Type()))
+				}
+			}
+			x.retType = "(" + strings.Join(rts, " * ") + ")"
+			if len(rts) == 1 {
+				x.retType = rts[0]
+			}
+		}
+		var onames []string
+		for n := range u.Oracles {
+			onames = append(onames, n)
+		}
+		sort.Strings(onames)
+		for _, n := range onames {
+			params = append(params, "("+u.Oracles[n].Name+" : "+u.Oracles[n].Type+")")
 		}
 		if u.Writer != nil {
 			params = append(params, "(out : list N)")
